@@ -3,6 +3,7 @@ code, runtime_error indexes the frame's own chunk), L3 (compile errors carry the
 every newline it consumes)."""
 from facts import origins, callee_name, op_place, op_const, Broken, strip_generics
 import c01
+import roles
 from c16 import operand_fields
 
 VM = 'yarel::vm::Vm::'
@@ -138,12 +139,24 @@ def l1(rep, w):
 
 
 def l2(rep, w):
+    """the line of a byte of code is recorded when, and only when, the byte is appended: whatever the representation of the line table
+    (one entry per byte, run lengths ...), `Chunk::write` is the only place `code` grows and it hands its `line` argument to the line
+    table on every path; nothing else touches the line table; the report looks the line up in the same chunk whose code the frame's ip
+    points into, at the offset of that ip"""
     c = w.yarel
-    r = rep.rule('L2', 'Chunk.code and Chunk.lines grow only together in Chunk::write; runtime_error reads the line of the frame\'s own chunk', floor=4)
+    r = rep.rule('L2', 'Chunk.code grows only in Chunk::write, which records the line of every byte; the line table changes nowhere else; runtime_error '
+                 'reads the line of the frame\'s own chunk at the offset of its ip', floor=4)
     grow = ('push', 'insert', 'extend', 'extend_from_slice', 'resize', 'truncate', 'pop', 'remove', 'clear', 'append', 'drain', 'retain', 'splice')
-    sites = {}
-    chunk_field_ty = {fd['n']: c.tstr(fd['t']) for fd in c.adts['yarel::chunk::Chunk']['variants'][0]['fields']}
-    for f in c.fns.values():
+    CH = 'yarel::chunk::Chunk'
+    fields = {fd['n']: c.tstr(fd['t']) for fd in c.adts[CH]['variants'][0]['fields']}
+    if 'code' not in fields:
+        raise Broken('C17', 'anchor', 'Chunk.code not found')
+    line_fields = [n for n, t in fields.items() if n != 'code' and 'Value' not in t]     # everything that is neither code nor the constant pool
+    wr = CH + '::write'
+    wf = w.require_fn(wr, 'C17')
+
+    def chunk_field_mutations(f):
+        out = []
         org = None
         for bi, t in f.calls():
             n = strip_generics(callee_name(t) or '')
@@ -155,43 +168,70 @@ def l2(rep, w):
             if org is None:
                 org = origins(f)
             for q in org.get(pl['l'], ()):
-                for fld in ('code', 'lines'):
+                for fld in ['code'] + line_fields:
                     if fld in q:
-                        # make sure it is a Chunk's field: the receiver has the type Chunk declares for that field
                         et = c.ty(c.peel_refs(pl.get('t', f.local_ty(pl['l']))))
-                        if et.get('n') == 'std::vec::Vec' and et.get('s') == chunk_field_ty[fld]:
-                            sites.setdefault(f.path, []).append((fld, n.rsplit('::', 1)[-1], bi))
-    wr = 'yarel::chunk::Chunk::write'
-    for p, ss in sorted(sites.items()):
-        if p == wr:
-            flds = sorted({(fld, op) for (fld, op, _) in ss})
-            r.check(flds == [('code', 'push'), ('lines', 'push')], 'Chunk::write pushes one byte and one line', 'Chunk::write does %s' % flds, w.fns[p].loc())
-        else:
-            r.bad('%s resizes %s' % (p, sorted({fld for (fld, _, _) in ss})), 'the code / line vectors of a chunk change length outside Chunk::write: '
-                  'lines[offset] no longer describes code[offset]', w.fns[p].loc())
-    if wr not in sites:
-        raise Broken('C17', 'anchor', 'Chunk::write pushes not found')
-    wf = w.fns[wr]
-    pushes = [bi for (_, _, bi) in sites[wr]]
-    r.check(len(pushes) == 2 and all(c01.all_paths_hit(wf, None, {b}) for b in pushes), 'Chunk::write: both pushes on every path',
-            'a path through Chunk::write pushes to only one of code/lines', wf.loc())
-    # runtime_error: lines[...] and code_offset(...) use the same chunk, offset from the frame's ip
+                        if et.get('s') == fields[fld]:
+                            out.append((fld, bi))
+        # direct stores into elements of the line table (`*count += 1` in a run-length encoding)
+        if org is None:
+            org = origins(f)
+        for bi in f.normal_blocks():
+            for s_ in f.blocks[bi]['s']:
+                d = s_.get('d') or {}
+                if d.get('p') and '*' in d['p']:
+                    for q in org.get(d['l'], ()):
+                        for fld in line_fields:
+                            if fld in q and f.path.startswith(CH):
+                                out.append((fld, bi))
+        return out
+    muts = {}
+    for f in c.fns.values():
+        m = chunk_field_mutations(f)
+        if m:
+            muts[f.path] = m
+    code_growers = sorted(p_ for p_, m in muts.items() if any(fld == 'code' for fld, _ in m))
+    r.check(code_growers == [wr], 'Chunk.code grows only in Chunk::write', 'Chunk.code changes length in %s: bytes appended there have no line' % code_growers)
+    # line-table writers other than write are recorders: reachable only from write
+    for p_, m in sorted(muts.items()):
+        if p_ == wr or not any(fld in line_fields for fld, _ in m):
+            continue
+        callers = sorted({g.path for (g, bi, t) in c01.callers_of(w, p_)})
+        r.check(callers == [wr], '%s (line recorder) is called only from Chunk::write' % p_.rsplit('::', 1)[-1],
+                '%s changes the line table and is called from %s: the table no longer has exactly one entry per byte of code' % (p_, callers), w.fns[p_].loc())
+    # write hands its line argument to the table on every path
+    worg = origins(wf)
+    consume = set()
+    for bi, t in wf.calls():
+        roots = [{q[0] for q in worg.get((op_place(a) or {}).get('l'), ())} for a in t['args']]
+        if roots and ('arg', 1) in roots[0] and any(('arg', 3) in x for x in roots[1:]):
+            consume.add(bi)
+    code_push = {bi for fld, bi in muts.get(wr, []) if fld == 'code'}
+    r.check(bool(consume) and bool(code_push) and c01.all_paths_hit(wf, None, consume) and c01.all_paths_hit(wf, None, code_push),
+            'Chunk::write appends the byte and records its line on every path', 'a path through Chunk::write appends a byte without recording its line (or the reverse)', wf.loc())
+    # runtime_error: the line comes from the chunk whose code the frame ip points into, at code_offset(ip)
     rt = w.require_fn(VM + 'runtime_error', 'C17')
     org = origins(rt)
-    co = [(bi, t) for bi, t in rt.calls() if callee_name(t) == 'yarel::chunk::Chunk::code_offset']
-    idx = [(bi, t) for bi, t in rt.calls() if 'Index' in (callee_name(t) or '') and t['args'] and
-           'lines' in operand_fields(rt, org, t['args'][0])]
-    ok = bool(co) and bool(idx)
+    co = [(bi, t) for bi, t in rt.calls() if callee_name(t) == CH + '::code_offset']
+    ok = len(co) == 1
     if ok:
-        # the chunk receiver of both derives from the same local
+        cb, ct = co[0]
+
         def base_roots(o):
             pl = op_place(o)
             return {q[:3] for q in org.get(pl['l'], ())} if pl else set()
-        ok = bool(base_roots(co[0][1]['args'][0]) & {q for q in base_roots(idx[0][1]['args'][0])})
-        ipf = 'ip' in operand_fields(rt, org, co[0][1]['args'][1])
-        ok = ok and ipf
-    r.check(ok, 'runtime_error: lines[code_offset(frame.ip) - 1] of the frame\'s own chunk', 'the traceback line is no longer looked up in the chunk '
-            'of the frame whose ip is used', rt.loc())
+        look = []
+        for bi, t in rt.calls():
+            n = callee_name(t) or ''
+            if bi == cb or not t['args'] or not (('Index' in n) or n.startswith(CH + '::')):
+                continue
+            idx_from_offset = any(any(q[0] == ('call', cb, CH + '::code_offset') for q in org.get((op_place(a) or {}).get('l'), ())) for a in t['args'][1:])
+            if idx_from_offset:
+                look.append((bi, t))
+        ok = bool(look) and all(bool(base_roots(ct['args'][0]) & base_roots(t['args'][0])) for _, t in look)
+        ok = ok and 'ip' in operand_fields(rt, org, ct['args'][1])
+    r.check(ok, 'runtime_error: the line is looked up at code_offset(frame.ip) in the frame\'s own chunk', 'the traceback line is no longer looked up in the chunk '
+            'of the frame whose ip is used (or not at the offset of that ip)', rt.loc())
     sub1 = any(s.get('r', {}).get('rv') == 'bin' and s['r']['op'].startswith('Sub') and (op_const(s['r']['b']) or {}).get('v') == 1
                for b in rt.blocks for s in b['s'])
     r.check(sub1, 'runtime_error: offset is ip - 1 (the executing instruction)', 'the instruction offset is no longer code_offset(ip) - 1', rt.loc())
@@ -329,9 +369,19 @@ def l5(rep, w):
     (sources with 2^31 lines or more are outside the claim)"""
     c = w.yarel
     r = rep.rule('L5', 'line numbers are stored and carried in at least 32 bits from the token to the chunk\'s line table and back to the report', floor=4)
-    el = {fd['n']: c.ty(fd['t']) for fd in c.adts['yarel::chunk::Chunk']['variants'][0]['fields']}['lines']
-    et = c.tstr(el['a'][0])
-    r.check(INT_BITS.get(et, 0) >= 32, 'Chunk.lines element type %s' % et, 'the line table stores lines as %s: line numbers above its range wrap around in every trace' % et)
+    # the line table, whatever its shape: every integer type that occurs in the types of Chunk's non-code, non-constant fields, and the
+    # line parameter of Chunk::write
+    wf = w.require_fn('yarel::chunk::Chunk::write', 'C17')
+    lt = c.tstr(wf.local_ty(3)) if wf.argc >= 3 else '?'
+    r.check(INT_BITS.get(lt, 0) >= 32, 'Chunk::write takes the line as %s' % lt, 'Chunk::write takes the line as %s: line numbers above its range wrap around in every trace' % lt, wf.loc())
+    import re as _re2
+    for fd in c.adts['yarel::chunk::Chunk']['variants'][0]['fields']:
+        ts = c.tstr(fd['t'])
+        if fd['n'] == 'code' or 'Value' in ts:
+            continue
+        ints = [x for x in _re2.findall(r'\b[iu](?:8|16|32|64|128|size)\b', ts)]
+        narrow = [x for x in ints if INT_BITS.get(x, 64) < 32]
+        r.check(not narrow, 'Chunk.%s (%s) holds no integer narrower than 32 bits' % (fd['n'], ts), 'the line table Chunk.%s stores %s: line numbers above that range wrap around in every trace' % (fd['n'], narrow))
     tok = {fd['n']: c.tstr(fd['t']) for fd in c.adts['yarel::scanner::Token']['variants'][0]['fields']}
     r.check(INT_BITS.get(tok.get('line'), 0) >= 32, 'Token.line type %s' % tok.get('line'), 'tokens carry their line as %s' % tok.get('line'))
     callers = [f for f in c.fns.values() if any(callee_name(t) == 'yarel::chunk::Chunk::write' for _, t in f.calls())]
@@ -370,7 +420,7 @@ def l6(rep, w, prop='C17'):
             if nm in ('std::vec::Vec::truncate', 'std::vec::Vec::pop', 'std::vec::Vec::clear', 'std::vec::Vec::remove') and t['args']:
                 if org is None:
                     org = origins(f)
-                if 'frames' in operand_fields(f, org, t['args'][0]):
+                if roles.resolve(w)['frames'] in operand_fields(f, org, t['args'][0]):
                     removes.append(bi)
         if not removes:
             continue
